@@ -21,6 +21,7 @@ import ClipVerif.Model.Split
 import ClipVerif.Model.BuildPaths
 import ClipVerif.Model.IntersectList
 import ClipVerif.Model.Ring
+import ClipVerif.Model.AelPtr
 /-
 Correspondence side of the line protocol: `model <name> …` evaluates a hand model, `gen <fn> …`
 evaluates a generated function; both print the result in a canonical form that the harness
@@ -137,6 +138,25 @@ def model (name : String) (ts : Toks) : String :=
             if (List.range s'.recs.length).all fun r => ends (s'.recs.length + 1) (some r) then go (k+1) t s'
             else s!"cycle {k}"
       go 0 ops { edgeRec := List.replicate n.toNat none }
+  | "aelptr", n :: rest =>
+    -- operations: 0 e (insertLeftEdge into an empty list) | 1 e (insertLeftEdge in front of actives) |
+    -- 2 e e2 (insertRightEdge) | 3 e (deleteFromAEL) | 4 e1 e2 (swapPositionsInAEL)
+    let rec ptrOps : Nat → List Int → List Model.AelPtr.Op → Option (List Model.AelPtr.Op)
+      | _, [], acc => some acc.reverse
+      | 0, _, _ => none
+      | f+1, 0 :: e :: r, acc => ptrOps f r (.first e.toNat :: acc)
+      | f+1, 1 :: e :: r, acc => ptrOps f r (.front e.toNat :: acc)
+      | f+1, 2 :: e :: e2 :: r, acc => ptrOps f r (.right e.toNat e2.toNat :: acc)
+      | f+1, 3 :: e :: r, acc => ptrOps f r (.del e.toNat :: acc)
+      | f+1, 4 :: e1 :: e2 :: r, acc => ptrOps f r (.swap e1.toNat e2.toNat :: acc)
+      | _, _, _ => none
+    match ptrOps rest.length rest [] with
+    | none => "parse-error"
+    | some ops =>
+      let h := ops.foldl Model.AelPtr.step Model.AelPtr.empty
+      let o := fun (x : Option Nat) => match x with | some v => toString v | none => "-"
+      let cells := (List.range n.toNat).map fun i => s!"{o (h.prev i)}/{o (h.next i)}"
+      s!"head {o h.head} | {" ".intercalate cells}"
   | "aelins", n :: rest =>
     -- n resident edges then the newcomer, 13 integers each (the probe sends pairwise distinct edges)
     let rec edges : Nat → List Int → List Model.AelEdge → Option (List Model.AelEdge)
